@@ -259,6 +259,9 @@ def inspect_frame(frame: FrameType) -> FrameDetails:
             "stack before we get preempted."
         )
 
+    if _verifhooks.ENABLED:
+        _verifhooks.point("snapshot_accepted", frame, lasti)
+
     # Figure out the active context managers and finally blocks, by
     # using the exception table to repeatedly simulate raising an exception
     # from the location of the previous handler.
